@@ -766,6 +766,25 @@ func (c *streamCtx) dirRare() []genCase {
 		b.done()
 		s.RefreshSeq = seq
 		out = append(out, single(s, fmt.Sprintf("rare: provider refresh outcomes %v", seq)))
+		if len(seq) == 2 { // the failing rebuild, seen from the main loop: RunForever must return that error (and not tick on)
+			f := cloneSpec(s)
+			f.Forever = true
+			out = append(out, single(f, fmt.Sprintf("rare: main loop, provider refresh outcomes %v", seq)))
+		}
+	}
+	// the main loop over a run that ends with the documented not-in-group error
+	{
+		s := newSpec(base, 0)
+		b := s.group("g1")
+		b.o.MinNodes = 0
+		b.node(0, 7200)
+		b.node(1, 90000)
+		ex := b.node(2, 8000, escAge(base, 1000))
+		ex.Spec.ProviderID = "aws:///z/i-not-there"
+		b.util(55, 0, true, false)
+		b.done()
+		s.Forever = true
+		out = append(out, single(s, "rare: main loop, the reaper meets a node that is no member of the cloud group"))
 	}
 	return out
 }
